@@ -86,7 +86,9 @@ Definition step1 (s : sst) (e : hev) : sst * list nat :=
       (bump s (-1),
        if cls =? 1 then
          (if c_close s then match q_c2h s with [] => [] | _ => [4%nat] end else [4%nat])
-       else [6%nat])
+       else (* a RecvMsg of a concurrent handler's receiver goroutine that ends after the handler function has returned:
+               the stream's context is cancelled then *)
+            match h_ret s with Some _ => [] | None => [6%nat] end)
   | HSendS _ tok => (mkS (q_c2h s) (c_pend s) (c_close s) (q_h2c s ++ [tok]) (h_ret s) (open_ops s + 1), [])
   | HSendR _ err => (bump s (-1), if err =? 0 then [] else [8%nat])
   | HRet _ code => (mkS (q_c2h s) (c_pend s) (c_close s) (q_h2c s) (Some code) (open_ops s), [])
@@ -156,6 +158,15 @@ Example eof_with_message_missing :
 Proof. vm_compute. reflexivity. Qed.
 Example same_open_id :
   spec_c02 false [WC2S (mkW 1 None None false false); COpenS 0 2; COpenR 0 0; WC2S (mkW 1 None None false false); COpenS 1 2; COpenR 1 0] = [9]%nat.
+Proof. vm_compute. reflexivity. Qed.
+(* a concurrent handler: its receiver goroutine sits in RecvMsg while the handler pushes two messages and returns nil *)
+Example return_while_receiving_ok :
+  spec_c02 true [COpenS 0 1; COpenR 0 0; HStS 0; HRecvS 0; HSendS 0 5; HSendR 0 0; CRecvS 0; CRecvR 0 (ROk 5); HRet 0 0;
+                 HRecvR 0 (RErr 2); CRecvS 0; CRecvR 0 (RErr 1)] = [].
+Proof. vm_compute. reflexivity. Qed.
+(* ... and the same handler stuck behind its own receiver: the pushes never leave, the caller hangs *)
+Example return_while_receiving_stuck :
+  spec_c02 true [COpenS 0 1; COpenR 0 0; HStS 0; HRecvS 0; HSendS 0 5; CRecvS 0] = [7]%nat.
 Proof. vm_compute. reflexivity. Qed.
 Example hung_recv :
   spec_c02 true [COpenS 0 1; COpenR 0 0; HStS 0; HRet 0 0; CRecvS 0] = [7]%nat.
